@@ -5,6 +5,19 @@ import glob, json, os, re
 ROOT = os.path.dirname(os.path.dirname(os.path.abspath(__file__)))
 kf = json.load(open(os.path.join(ROOT, 'known_findings.json')))
 out = []
+out.append('### 8.1b What each registered check covered in its last committed quick run\n')
+out.append('(from `evidence/*.json`; thorough tiers multiply these by 5-100x, see the evidence `bounds`/`rule` fields)\n')
+out.append('| property | evaluations | states | transitions | traces validated against the implementation | distinct outcomes | exhaustive | known findings hit | wall s |\n|---|---|---|---|---|---|---|---|---|')
+for f in sorted(glob.glob(os.path.join(ROOT, 'evidence', 'C*.json'))):
+    try:
+        e = json.load(open(f))
+    except Exception:
+        continue
+    c = e['coverage']
+    out.append('| %s | %s | %s | %s | %s | %s | %s | %s | %s |' % (e['property_id'], c.get('evaluations'), c.get('states'), c.get('transitions'),
+               c.get('traces_validated_against_impl'), c.get('distinct_outcomes'), c.get('exhaustive'),
+               len(c.get('known_findings_hit', [])), e.get('wall_s')))
+out.append('')
 out.append('### 8.2 Defects repaired by `fix:` commits in /repo (%d)\n' % len(kf['fixed']))
 out.append('| property | commit | what failed |\n|---|---|---|')
 for f in sorted(kf['fixed']):
